@@ -27,7 +27,7 @@ CHILD_ENV = dict(os.environ, VERIF_WORK=WORKDIR)
 PROPS = {
     # the second leg of the thread properties is the T-flavour build, in which every std::atomic operation of tulz is a
     # scheduling point as well (sim/tsan_atomics.cpp): same oracles, finer interleaving granularity, no ASan
-    "C01": [("resource_sim", "A", 30000, 1000000), ("resource_sim", "T", 6000, 200000)],
+    "C01": [("resource_sim", "A", 30000, 1000000), ("resource_sim", "R", 15000, 500000), ("resource_sim", "T", 6000, 200000)],
     "C02": [("resource_sim", "A", 30000, 1000000), ("resource_sim", "T", 6000, 200000)],
     "C03": [("resource_sim", "A", 30000, 1000000), ("resource_sim", "T", 6000, 200000)],
     "C12": [("resource_sim", "A", 30000, 1000000), ("resource_sim", "T", 6000, 200000)],
